@@ -3,6 +3,7 @@
 package gobinlog
 
 import (
+	"context"
 	"strconv"
 
 	"github.com/Breeze0806/gobinlog/replication"
@@ -18,25 +19,54 @@ func init() {
 
 // VH_C10_RowSign: table TINY, SHORT, TINY [, SHORT]; every column's signedness flag, the
 // presence pattern (any non-empty subset), the image kind and every cell byte are free.
+// ncols >= 65: a table of ncols TINY columns, all present; the signedness flags and the cell bytes
+// of columns 63, 64 and the last one are free, the others are signed zeros.
+// The row travels the real path: TABLE_MAP and rows event through parseEvents, the mapper is
+// consulted by the library, the delivered transaction is inspected.
 func VH_C10_RowSign(ncols int) {
-	shapes := []vCellShape{{replication.TypeTiny, 0, 1}, {replication.TypeShort, 0, 2}, {replication.TypeTiny, 0, 1}, {replication.TypeShort, 0, 2}}[:ncols]
-	tc := vRowTable(shapes)
-	uns := make([]bool, ncols)
-	for c := range uns {
-		uns[c] = vhChoose(2) == 1
-		tc.table.Columns()[c].(*vColumn).unsigned = uns[c]
+	wide := ncols >= 65
+	var shapes []vCellShape
+	free := map[int]bool{}
+	if wide {
+		for c := 0; c < ncols; c++ {
+			shapes = append(shapes, vCellShape{replication.TypeTiny, 0, 1})
+		}
+		for _, c := range []int{63, 64, ncols - 1} {
+			free[c] = true
+		}
+	} else {
+		shapes = []vCellShape{{replication.TypeTiny, 0, 1}, {replication.TypeShort, 0, 2}, {replication.TypeTiny, 0, 1}, {replication.TypeShort, 0, 2}}[:ncols]
+		for c := 0; c < ncols; c++ {
+			free[c] = true
+		}
 	}
-	pres := 1 + vhChoose((1<<uint(ncols))-1)
+	tm := &replication.TableMap{Database: "db", Name: "ta", CanBeNull: replication.NewServerBitmap(ncols)}
+	uns := make([]bool, ncols)
+	for c, sh := range shapes {
+		tm.Types = append(tm.Types, sh.typ)
+		tm.Metadata = append(tm.Metadata, sh.meta)
+		if free[c] {
+			uns[c] = vhChoose(2) == 1
+		}
+	}
+	pres := (1 << uint(ncols)) - 1
+	if !wide {
+		pres = 1 + vhChoose((1<<uint(ncols))-1)
+	}
+	present := func(c int) bool { return wide || pres&(1<<uint(c)) != 0 }
 	useIdentify := vhChoose(2) == 1
 	np := 0
 	var data []byte
 	want := make([][]byte, ncols)
 	for c := 0; c < ncols; c++ {
-		if pres&(1<<uint(c)) == 0 {
+		if !present(c) {
 			continue
 		}
 		np++
-		b := vhBytes(shapes[c].size)
+		b := make([]byte, shapes[c].size)
+		if free[c] {
+			b = vhBytes(shapes[c].size)
+		}
 		data = append(data, b...)
 		var u uint64
 		for i := len(b) - 1; i >= 0; i-- {
@@ -55,32 +85,52 @@ func VH_C10_RowSign(ncols int) {
 			want[c] = strconv.AppendInt(nil, int64(int32(u)), 10)
 		}
 	}
-	rs := &replication.Rows{DataColumns: replication.NewServerBitmap(ncols), IdentifyColumns: replication.NewServerBitmap(ncols)}
+	rs := replication.Rows{DataColumns: replication.NewServerBitmap(ncols), IdentifyColumns: replication.NewServerBitmap(ncols)}
 	row := replication.Row{NullColumns: replication.NewServerBitmap(np), NullIdentifyColumns: replication.NewServerBitmap(np)}
 	for c := 0; c < ncols; c++ {
-		on := pres&(1<<uint(c)) != 0
 		if useIdentify {
-			rs.IdentifyColumns.Set(c, on)
+			rs.IdentifyColumns.Set(c, present(c))
 		} else {
-			rs.DataColumns.Set(c, on)
+			rs.DataColumns.Set(c, present(c))
 		}
 	}
-	var rd *RowData
-	var err error
+	kind := kWrite
 	if useIdentify {
+		kind = kDelete
 		row.Identify = data
-		rs.Rows = []replication.Row{row}
-		rd, err = getIdentifiesFromRow(tc, rs, 0)
 	} else {
 		row.Data = data
-		rs.Rows = []replication.Row{row}
-		rd, err = getValuesFromRow(tc, rs, 0)
 	}
-	vhAssert(err == nil && rd != nil, "row decodes")
+	rs.Rows = []replication.Row{row}
+	h := &vHist{ghost: &vGhost{}, start: Position{Filename: "f0", Offset: 4}, tables: []string{"ta", "tb"}}
+	g := &vGen{h: h}
+	g.file, g.off = "f0", 4
+	g.add(&vEvent{kind: kRotate, rotName: "f0", rotPos: 4})
+	g.add(&vEvent{kind: kFDE})
+	g.add(&vEvent{kind: kTableMap, tableID: 10, tm: tm})
+	g.add(&vEvent{kind: kind, tableID: 10, rows: rs})
+	s := newModelStreamer(h, &vMapper{ncols: map[string]int{"ta": ncols}, uns: map[string][]bool{"ta": uns}})
+	var rd *RowData
+	calls := 0
+	s.sendTransaction = func(t *Transaction) error {
+		calls++
+		vhAssert(len(t.Events) == 1, "one change")
+		ev := t.Events[0]
+		if useIdentify {
+			vhAssert(len(ev.RowIdentifies) == 1, "one before image")
+			rd = ev.RowIdentifies[0]
+		} else {
+			vhAssert(len(ev.RowValues) == 1, "one after image")
+			rd = ev.RowValues[0]
+		}
+		return nil
+	}
+	_, err := s.parseEvents(context.Background(), h.channel())
+	vhAssert(err == nil && calls == 1 && rd != nil, "row decodes and is delivered")
 	vhAssert(len(rd.Columns) == ncols, "one entry per table column")
 	for c := 0; c < ncols; c++ {
 		col := rd.Columns[c]
-		if pres&(1<<uint(c)) == 0 {
+		if !present(c) {
 			vhAssert(col.IsEmpty && col.Data == nil, "absent column: flagged, no data")
 			continue
 		}
